@@ -7,7 +7,7 @@ def run(tier, seed):
     rep = Report("C10", tier, seed, level="proof")
     from contracts import compiler_c as CC
 
-    run_contracts(rep, [CC.compile_contract()])
+    run_contracts(rep, [CC.compile_contract(), CC.compile_code_contract()])
     ok = CC.timing_is_off()
     rep.add(Ob("compiler#timing_disabled_premise", DISCHARGED if ok else VIOLATED, kind="scan", backend="scan", target="compiler", replayed=True,
                witness={"module": "compiler"}, detail={} if ok else {"observed": "_DO_TIMING is not the constant False: time() prints to stdout"}))
